@@ -106,6 +106,10 @@ def run(pid, tier, ev=None, vd=None, finish=True):
         for k in range(12 if tier == "quick" else 300):
             jobs.append({"prog": "getempty", "program": {1: [("get", "f"), ("get", "f")], 2: [("put", "f", "c2", "c0"), ("put", "f", "c0", "c1")]},
                          "init": {"f": "c2"}, "policy": "random", "seed": vlib.seed() * 29 + k, "src": "search", "allow_empty": True, "reads_visible": True})
+        # a write of the EMPTY version that loses its compare-and-swap: its (zero-byte) conflict-copy has to exist
+        for k in range(4 if tier == "quick" else 60):
+            jobs.append({"prog": "emptyloser", "program": {1: [("put", "f", None, "c0"), ("get", "f")], 2: [("put", "f", "c1", "c2")]},
+                         "init": {"f": "c1"}, "policy": "random", "seed": vlib.seed() * 37 + k, "src": "search", "allow_empty": True})
         # the hub's own lock file addressed by a client as an ordinary path (it starts empty = "c0"): whatever the hub
         # answers, the compare-and-swap of the OTHER clients must stay linearizable (schedule as in lock_identity)
         jobs.append({"prog": "lockfile", "program": {1: [("put", ".copia/commit.lock", "c0", "c2")], 2: [("put", "f", "c1", "c2")], 3: [("put", "f", "c1", "c3")]},
